@@ -28,7 +28,34 @@ def gen_opts(rng):
     return "PF %d %d %d" % (rng.randint(0, 1), rng.choice([0, 0, 1, 2]), rng.randint(0, 1))
 
 
+def gen_timer_scenario(rng, sid):
+    """timer-heavy scripts on one or two processes: several timers of one process pending at once with equal and
+    different delays, cancelled (also while still withheld) and consumed in every order"""
+    nproc = rng.choice([1, 1, 2])
+    nnames = rng.choice([3, 4])
+    n = rng.randint(5, 18)
+    lines = []
+    for _ in range(n):
+        r = rng.random()
+        if r < 0.50:
+            lines.append("PUSHTIMER %d %d %d" % (rng.randrange(nproc), rng.randrange(nnames),
+                                                f64_bits(rng.choice([0.5, 1.0, 1.0, 2.0, 3.0]))))
+        elif r < 0.70:
+            lines.append("CANCELTIMER %d %d" % (rng.randrange(nproc), rng.randrange(nnames)))
+        elif r < 0.90:
+            lines.append("POPOFF %d" % rng.randrange(4))
+        elif r < 0.95:
+            lines.append("POPLIVE %d" % rng.randrange(6))
+        else:
+            lines.append("PUSHMSG %s %d %d %s" % (gen_msg(rng), 0, rng.randrange(nproc), gen_opts(rng)))
+    if rng.random() < 0.7:
+        lines += ["POPOFF 0"] * (n + 2)
+    return ("STORE", sid, lines)
+
+
 def gen_scenario(rng, sid, malformed=False, nops=None):
+    if not malformed and rng.random() < 0.35:
+        return gen_timer_scenario(rng, sid)
     nproc = rng.choice([2, 2, 3])
     nnames = rng.choice([1, 2, 2])
     n = nops if nops is not None else rng.randint(4, 28)
